@@ -8,6 +8,7 @@
    [pi] is the order in which Go ranges over the map (any permutation). *)
 From Verif Require Import Base.Util Model.ResultStore Proofs.ResultStoreProofs Gen.Generated.
 From Verif Require Import Base.GenIR Gen.GeneratedTr Proofs.GenTrStores.
+From Verif Require Import Base.GenIR Gen.GeneratedTr Proofs.GenTrHooks.
 Open Scope Z_scope.
 
 (* A view never holds two results for one unit of work (either variant, any history). *)
@@ -183,6 +184,23 @@ Theorem C10_gen_Remove_decisions :
   g_rs_remove found = if found then ([1], Fall) else ([], RetU).
 Proof. exact gen_rs_remove. Qed.
 Print Assumptions C10_gen_Remove_decisions.
+
+End GenTie.
+
+Section GenTie.
+Local Open Scope Z_scope.
+(* ---- Tie to the source by translation (Gen/GeneratedTr.v, regenerated from /repo on every run by gen/translate.go) ----
+   g_* are the decision terms translated from the CURRENT Go code: every condition, the branch structure and which
+   white-listed effect statement runs on which path.  The theorems below state that the model's functions - about
+   which every theorem above speaks - are the interpretation of these terms. *)
+(* RemoveFromStagingHook: the work id of every agreed performable is collected and removed from the staging store (with the other pre-build hooks' steps) *)
+Theorem C10_gen_remove_from_staging_steps :
+  forall enq_err : bool,
+  g_hook_remove_metadata = ([1], Fall) /\ g_hook_remove_metadata_body = ([1; 2], Fall) /\
+  g_hook_remove_staging = ([1; 2], Fall) /\ g_hook_remove_staging_body = ([1], Fall) /\
+  g_hook_proposalq_body enq_err = (if enq_err then ([1], Cont) else ([1; 2], Fall)).
+Proof. exact gen_hook_prebuild. Qed.
+Print Assumptions C10_gen_remove_from_staging_steps.
 
 End GenTie.
 
